@@ -3,6 +3,8 @@
     Storage::empty; the theorems below are about that save on every well-formed state.  The specification
     object is [valid_pdf] (Storage/Valid.v), an independent reading of the bytes. *)
 From PdfV Require Import Base.Prelude Storage.Prim Storage.Model Storage.Proofs Storage.Syntax Storage.Run Storage.Tables Storage.Valid.
+From PdfV Require Import Storage.Builder Storage.Reload Storage.BuilderProofs Storage.LoadProofs.
+From PdfV Require Syn.Serialize.
 
 (** Every in-use entry of a saved object points (relative to the header) at its `id gen obj` header. *)
 Theorem C10_offsets : forall ser s tr s' tr',
@@ -42,31 +44,86 @@ Proof.
 Qed.
 Print Assumptions C10_startxref.
 
-(** The whole statement about the bytes — not proved universally (the validator tokenises every object);
-    it is evaluated by the extracted [valid_code] on the implementation's real output in every case, and
-    on the model's output in the examples below. *)
+(** ---- the builder: PdfBuilder::build / CatalogBuilder::build as the Gallina program [Builder.build] over the storage
+    model, for every page list (Storage/Builder.v; tied to the real builder byte for byte by mode `build_bytes`). ---- *)
+
+(** C10_valid (structural part, proved): the bytes of every build are structurally valid in the sense of [valid_struct]
+    (stated on the bytes and on the table the file's own cross-reference stream encodes): header first; the file ends
+    with the cross-reference stream object — the last table entry, at the offset `startxref` announces — then
+    `startxref`, the offset, `%%EOF`; the stream data decodes (parse_xref_section_from_stream) to exactly the table;
+    /Size is not below the number of entries, /Length is the byte count of the data, /W and /Index describe the rows;
+    entry 0 is free and every other entry is in use and points at the `num 0 obj` header of that very number. *)
+Theorem C10_valid_struct : forall ps info s' tr',
+  build ps info = Ok (s', tr', None) -> lenN (backend s') < 2 ^ 64 -> valid_struct (backend s') (refs s').
+Proof. exact build_valid_struct. Qed.
+Print Assumptions C10_valid_struct.
+
+(** C10_reload: a reload of the built file (a state over the built bytes whose table is the saved table: C09_load_table)
+    resolves the trailer's /Root to the catalog, its /Pages to a page tree whose /Kids are as many references as pages
+    were given, in order ([Forall2]), each resolving to the page dictionary `other entries ++ Type, Parent, Resources,
+    MediaBox?, CropBox?, TrimBox?, Contents, Rotate` of that page — the boxes, rotation and extra entries given — whose
+    /Contents resolves to a stream of exactly the given content bytes; and the information dictionary comes back.
+    Composition of [build_catalog_spec] with C09_reload / C09_reload_stream; the side conditions are C04's storable
+    domain for the values the caller supplies ([page_ok], [info_ok]). *)
+Theorem C10_reload : forall ps info s' tr',
+  Forall page_ok ps -> info_ok info -> lenN ps < 1000000 ->
+  build ps info = Ok (s', tr', None) ->
+  forall member s3, reloaded s' s3 ->
+  exists tree kids,
+    resolve parse_obj member s3 (t_root tr') = Ok (PDict (catalog_dict tree)) /\
+    resolve parse_obj member s3 tree = Ok (PDict (tree_dict kids)) /\
+    Forall2 (page_reloaded member s3 tree) kids ps /\
+    t_info tr' = info /\
+    match info with
+    | Some d => resolve parse_obj member s3 (lenN (refs s') - 2, 0) = Ok (PDict d)
+    | None => True
+    end.
+Proof. exact build_reload. Qed.
+Print Assumptions C10_reload.
+
+(** the produced bytes open: FileOptions::load (model) succeeds on every built file and the loaded state is a reload in
+    the sense of C10_reload — so C10_reload applies to what load returns, with no assumption about the table *)
+Theorem C10_load : forall read_classic ps info s' tr' c,
+  build ps info = Ok (s', tr', None) -> lenN ps < 300000 -> lenN (backend s') < 2 ^ 64 ->
+  exists s3 td, load parse_obj read_classic (backend s') c = Ok (s3, td) /\ reloaded s' s3.
+Proof. exact build_load. Qed.
+Print Assumptions C10_load.
+
+(** the state the builder hands to save is well-formed (so every C09 theorem applies to the save of a build) and
+    contains exactly the objects of the document *)
+Theorem C10_build_state : forall ps s4 cat,
+  build_catalog ps = Ok (s4, cat) ->
+  wf_st s4 /\ start s4 = 0 /\ backend s4 = backend empty_storage /\ lenN (refs s4) = 3 * lenN ps + 3 /\
+  exists tree kids,
+    clookup (changes s4) (fst cat) = Some (PDict (catalog_dict tree), 0) /\ snd cat = 0 /\ fst cat < lenN (refs s4) /\
+    clookup (changes s4) (fst tree) = Some (PDict (tree_dict kids), 0) /\ snd tree = 0 /\ fst tree < lenN (refs s4) /\
+    Forall2 (page_written s4 tree) kids ps.
+Proof. exact build_catalog_spec. Qed.
+Print Assumptions C10_build_state.
+
+(** The whole statement about the bytes as the *executable* validator reads them — not proved universally (the
+    validator tokenises every object body with its own tokeniser; [C10_valid_struct] proves the structure it checks
+    around the bodies); it is evaluated by the extracted [valid_code] on the implementation's real output in every
+    case — which the builder model reproduces byte for byte — and on the model's output in the examples below. *)
 Definition C10_full_statement : Prop :=
   forall s tr s' tr', wf_st s -> start s = 0 -> prefixb HEADER (backend s) = true ->
-    save ser_prim s tr = Ok (s', tr', None) -> valid_pdf (backend s') = true.
+    save Serialize.ser s tr = Ok (s', tr', None) -> valid_pdf (backend s') = true.
 
-(** Storage::empty *)
-Definition empty_storage : st := mkSt [XFree 0 65535] [] [37; 80; 68; 70; 45; 49; 46; 55; 10] 0 [] false.
 
 Definition n_ (s : list N) : prim := PName s.
-Definition kT := [84; 121; 112; 101].
 
 (** CatalogBuilder::build for one page + PdfBuilder::build, as a program over the storage model *)
 Definition build_one_page (info : option dict) : res (st * trailer * option N) :=
   let '(s1, page) := promise empty_storage in
   let '(s2, tree) := create s1 (PDict [(kT, n_ [80; 97; 103; 101; 115]); ([75; 105; 100; 115], PArr [PRef (fst page) 0]); ([67; 111; 117; 110; 116], PInt 1)]) in
   let '(s3, rsrc) := create s2 (PDict []) in
-  let '(s4, cont) := create s3 (PStream [(k_Length, PInt 4)] (SPending [113; 10; 81; 10])) in
+  let '(s4, cont) := create s3 (PStreamData [(k_Length, PInt 4)] [113; 10; 81; 10]) in
   do f <- fulfill s4 page (PDict [(kT, n_ [80; 97; 103; 101]); ([80; 97; 114; 101; 110; 116], PRef (fst tree) 0);
                                    ([82; 101; 115; 111; 117; 114; 99; 101; 115], PRef (fst rsrc) 0);
-                                   ([77; 101; 100; 105; 97; 66; 111; 120], PArr [PInt 0; PInt 0; PReal 1142489088; PInt 792]);
+                                   ([77; 101; 100; 105; 97; 66; 111; 120], PArr [PInt 0; PInt 0; PReal [54; 49; 50; 46; 53]; PInt 792]);
                                    ([67; 111; 110; 116; 101; 110; 116; 115], PRef (fst cont) 0); ([82; 111; 116; 97; 116; 101], PInt 90)]);
   let '(s6, cat) := create (fst f) (PDict [(kT, n_ [67; 97; 116; 97; 108; 111; 103]); ([80; 97; 103; 101; 115], PRef (fst tree) 0)]) in
-  save ser_prim s6 (mkTrailer 0 None cat info [[102; 111; 111]; [98; 97; 114]]).
+  save Serialize.ser s6 (mkTrailer 0 None cat info [[102; 111; 111]; [98; 97; 114]]).
 
 Example C10_example_valid :
   match build_one_page None with Ok (s', _, None) => valid_code (backend s') = 0 | _ => False end.
@@ -76,7 +133,7 @@ Example C10_example_valid_info :
   match build_one_page (Some [([84; 105; 116; 108; 101], PStr [104; 105; 40])]) with
   | Ok (s', _, None) => valid_code (backend s') = 0 /\
       (* and a second save of the same document is valid again *)
-      match save ser_prim s' (mkTrailer 0 None (6, 0) None []) with Ok (s'', _, None) => valid_code (backend s'') = 0 | _ => False end
+      match save Serialize.ser s' (mkTrailer 0 None (6, 0) None []) with Ok (s'', _, None) => valid_code (backend s'') = 0 | _ => False end
   | _ => False end.
 Proof. vm_compute. split; reflexivity. Qed.
 
@@ -88,3 +145,18 @@ Example C10_validator_rejects :
       valid_code (take 9 b ++ [32] ++ drop 9 b) <> 0 /\ valid_code (drop 1 b) <> 0
   | _ => False end.
 Proof. vm_compute. split; discriminate. Qed.
+
+(** the general builder on a two-page document with boxes, rotation, extra entries and an information dictionary:
+    the executable validator accepts the bytes (non-vacuity of [Builder.build], [C10_valid_struct], [C10_reload]) *)
+Example C10_example_pages : list page :=
+  [mkPage [([88], PInt 5); ([89; 107], PName [83])] (Some [PInt 0; PInt 0; PInt 612; PInt 792])
+          (Some [PInt 10; PInt 20; PReal [49; 48; 48; 46; 53]; PInt 300]) None 90 [113; 10; 81; 10];
+   mkPage [] (Some [PInt 0; PInt 0; PInt 595; PInt 842]) None None 0 []].
+Example C10_example_build :
+  match build C10_example_pages (Some [([84; 105; 116; 108; 101], PStr [104; 105; 40])]) with
+  | Ok (s', _, None) => valid_code (backend s') = 0 /\ lenN (refs s') = 11
+  | _ => False end.
+Proof. vm_compute. split; reflexivity. Qed.
+Example C10_example_build_empty :
+  match build [] None with Ok (s', _, None) => valid_code (backend s') = 0 | _ => False end.
+Proof. vm_compute. reflexivity. Qed.
